@@ -82,7 +82,7 @@ PROPS = {
     'C13': {
         'steps': [{'script': 'corr_lattice.py', 'timeout': 600},
                   {'script': 'oracle_c13.py', 'timeout': 1500, 'timeout_thorough': 3000}],
-        'required_theorems': ['C13_accept_sound', 'C13_accept_iff_kernel',
+        'required_theorems': ['C13_accept_sound_partial', 'C13_accept_sound_refuted', 'C13_accept_iff_kernel_partial',
                               'C13_reject_total', 'C13_star_consistent',
                               'C13_specific_refused'],
         'rule': ('the full finite lattice enumerated exhaustively on both sides: 2 algorithms x 24 '
